@@ -315,6 +315,17 @@ def registry_rebuilt(prog, rep):
                "build_from_raw inserts into extended_types without clearing it first: re-reading into a used Snap keeps stale UUID types", b.loc(t.get("ln")))
 
 
+    # ... and on every path to a successful return at all: a fast path that returns Ok before the reset (e.g. for an empty
+    # snapshot) leaves the previous snapshot's UUID types in a reused Snap
+    oks = [bi for bi in sorted(b.live) for st in b.blocks[bi]["st"]
+           if st["k"] == "assign" and st["p"]["l"] == 0 and not st["p"].get("pr") and st["r"]["k"] == "agg" and st["r"].get("variant") == "Ok"]
+    reach = b.reachable_from(0, removed_blocks=frozenset(clears))
+    bad = [o for o in oks if o in reach]
+    rep.ob(rule, "every Ok return passes the reset", bool(oks) and bool(clears) and not bad,
+           "build_from_raw cannot return Ok without having emptied extended_types" if not bad else
+           "build_from_raw can return Ok without resetting extended_types: a reused Snap keeps stale UUID types", b.loc())
+
+
 def boundaries_admitted(prog, rep):
     """R2b: two guards that must be tight for the round trip.  (a) read_from_ints accepts an item of length 0 (the writer
     emits one: consecutive offsets differ by exactly one word): at the add_item call the dominating guards imply
